@@ -30,6 +30,12 @@ ASSUMPTIONS = [
     "Props/C19.lean takes the representation-independence of the value-level functions as an explicit hypothesis structure "
     "(RepIndep); Props/C19g.lean proves it for Model/Curve.lean on the subgroup <G> of odd order n (N2T holds there; K1 is "
     "outside), leaving p prime, n odd, n*G = 0",
+    "the theorems speak about heaps whose point objects all lie on ONE curve (values in <G>, declared order n or none): "
+    "mixed-curve heaps (== must be False, + must raise) and equal-but-distinct CurveFp objects are corresponded and searched only",
+    "a stored PointJacobi / Point cell of a related heap denotes a non-zero element (Y != 0, Z != 0); the identity occurs as "
+    "INFINITY and its pickled/copied twins only (all the library's arithmetic returns). User-built identity-valued "
+    "PointJacobi objects (Y = 0 or Z = 0) in the heap are outside the C19 theorems (value level: C06/C07 PJRep0) and are met "
+    "by the walks only on the curves with a point of order 2 (K1 domain)",
     "step_refines covers all 24 modelled operations (incl. mul_add and verifies) except arithmetic whose operands are all "
     "legacy Points (immutable objects, no hidden state); those are corresponded and searched only",
 ]
@@ -59,13 +65,18 @@ def ordtok(o):
     return "N" if o is None else str(int(o))
 
 
+class BadHistory(Exception):
+    """the history itself is malformed (unknown operation, dangling object index)"""
+
+
 class Walk:
     """executes a history on the real code; keeps the pool (objects the caller holds), emits wire tokens and answers"""
 
-    def __init__(self, hist):
+    def __init__(self, hist, strict=False):
         from ecdsa import ellipticcurve as E
         self.E = E
         self.hist = hist
+        self.strict = strict
         p, a, b = hist["curve"]
         self.cv = (p, a % p, b % p)
         self.p = p
@@ -199,6 +210,15 @@ class Walk:
     def do(self, op):
         E, cv, n = self.E, self.cv, self.n
         o = op[0]
+        # a history that cannot be executed is the harness's problem, never a verdict about the code
+        if o not in REFPOS:
+            raise BadHistory("unknown operation %r" % (o,))
+        if self.strict:
+            # (replaying a record: in a generated history a dangling index means that an earlier operation of the code under
+            # test returned an existing object instead of a new one - that is judged below, as before)
+            for idx in REFPOS[o]:
+                if idx >= len(op) or not (op[idx] == "inf" or (isinstance(op[idx], int) and 0 <= op[idx] < len(self.pool))):
+                    raise BadHistory("operation %r refers to an object that does not exist" % (op,))
         self.steps += 1
         exp = self.expect_ok(op)          # computed before the call (the call may change attributes)
         try:
@@ -206,7 +226,7 @@ class Walk:
             if exp is False:
                 self.fail("operation did not raise although it must", op=op)
         except BaseException as e:  # noqa
-            if isinstance(e, (KeyboardInterrupt, SystemExit, MemoryError)):
+            if isinstance(e, (KeyboardInterrupt, SystemExit, MemoryError, BadHistory)):
                 raise
             out = "!" + common.errname(e)
             if exp is True:
@@ -1187,18 +1207,25 @@ def correspond(ctx):
     dis = c.run()
     # histories on which MODEL and implementation disagree (the model reproduces K1 faithfully: a failure may be filed under
     # K1 only if the model gives the implementation's answers on that very history)
-    ctx._c19_dis = set(d["line"] for d in dis)
+    # (if the driver did not answer, agreement of the model is unknown: nothing is filed under K1 then)
+    ctx._c19_dis = None if _driver_failed(ctx) else set(d["line"] for d in dis)
+
+
+def _driver_failed(ctx):
+    return any(p.get("kind") == "correspondence" and str(p.get("what", "")).startswith("model driver") for p in ctx.problems)
 
 
 def search(ctx):
     walks = getattr(ctx, "_c19", None) or all_walks(ctx)
     dis = getattr(ctx, "_c19_dis", None)
-    if dis is None:
+    if not hasattr(ctx, "_c19_dis"):
         c = Corr(ctx, "object-history")
         for (h, w, tag) in walks:
             out = " ".join(w.outs)
             c.add(w.line(), lambda out=out: out, tag)
         dis = set(d["line"] for d in c.run())
+        if _driver_failed(ctx):
+            dis = None
     n = 0
     nviol = 0
     nk1 = 0
@@ -1206,7 +1233,7 @@ def search(ctx):
         n += 1
         if w.bad is None:
             continue
-        is_k1 = k1_structural(w, w.bad) and w.line() not in dis
+        is_k1 = dis is not None and k1_structural(w, w.bad) and w.line() not in dis
         if is_k1:
             nk1 += 1
             if nk1 > 2:                      # further instances of the known finding are counted, not shrunk again
@@ -1222,7 +1249,8 @@ def search(ctx):
         else:
             if k1_domain(h):
                 rec["note"] = ("on a curve with a point of order 2, but not filed under K1: " +
-                               ("model and implementation disagree on this history" if w.line() in dis else
+                               ("agreement of the model could not be established (driver failed)" if dis is None else
+                                "model and implementation disagree on this history" if w.line() in dis else
                                 "no operand/intermediate/result with y = 0"))
             nviol += 1
         ctx.violation(rec)
@@ -1233,8 +1261,9 @@ def search(ctx):
         bad = turnover_fails(spec)
         ctx.hist("search", "turnover-" + spec["kind"], spec["count"])
         if bad is not None and nviol < 3:
-            small = dict(spec, count=bad["step"] + 1)
-            ctx.violation({"input": {"turnover": small}, "observed": bad,
+            # (not truncated to the failing step: which address is re-used depends on the allocator's state, a replay in
+            # a fresh process may need more rounds than this run did)
+            ctx.violation({"input": {"turnover": dict(spec)}, "observed": bad,
                            "expected": "an object built after others were used and dropped has the value it was built with"})
             nviol += 1
     ctx.hist("search", "K1-instances", nk1)
@@ -1244,6 +1273,18 @@ def search(ctx):
 
 
 def replay(rec):
-    if "turnover" in rec["input"]:
-        return turnover_fails(rec["input"]["turnover"]) is not None
-    return still_fails(rec["input"])
+    """True: still fails; False: passes now; None / an exception: the record cannot be re-run (harness/check exits 2)"""
+    i = rec.get("input")
+    if not isinstance(i, dict):
+        return None
+    if "turnover" in i:
+        t = i["turnover"]
+        if not (isinstance(t, dict) and all(k in t for k in ("curve", "G", "n", "count", "kind"))):
+            return None
+        return turnover_fails(t) is not None
+    if not all(k in i for k in ("curve", "n", "init", "ops")):
+        return None
+    # (no blanket `except`: a history that cannot be executed - unknown operation, bad object index - raises: exit 2;
+    # exceptions of the code under test are caught inside Walk.do and judged there)
+    w = Walk(i, strict=True).run()
+    return w.bad is not None
